@@ -234,7 +234,8 @@ pub fn run() {
                                 ids.push(who);
                             }
                         }
-                        msgs.push(json!({"len": data.len(), "chans": ids, "nchans": chans.len(), "nregions": regs.len()}));
+                        let hex: String = data.iter().map(|b| format!("{:02x}", b)).collect();
+                        msgs.push(json!({"len": data.len(), "data": hex, "chans": ids, "nchans": chans.len(), "nregions": regs.len()}));
                     },
                     Err(_) => break,
                 }
